@@ -604,7 +604,19 @@ def r02_6(ctx: Ctx) -> None:
     closes = [c for c in calls(fci) if last_attr(c) == "is_a_rule_keyword"]
     takes = [n for n in walk_local(fci) if isinstance(n, ast.Compare) and "TokenTypes.IDENTIFIER" in txt(n)]
     # the section test comes first, so that a section-opening keyword is not taken for a closing one
-    ok = bool(opens) and bool(closes) and bool(takes) and opens[0].lineno < closes[0].lineno
+    from ..cfg import CFG as _CFG
+    fcfg = _CFG(fci)
+    flags = {t.id for n in walk_local(fci) if isinstance(n, ast.Assign) and isinstance(n.value, ast.Constant) and n.value.value is False
+             for t in n.targets if isinstance(t, ast.Name)}
+    # the flag is raised for a section-opening token: `flag = True` under the section test, or `flag = <section test>`
+    raised = False
+    for n in walk_local(fci):
+        if isinstance(n, ast.Assign) and isinstance(n.targets[0], ast.Name) and n.targets[0].id in flags:
+            if isinstance(n.value, ast.Constant) and n.value.value is True:
+                raised = raised or any(t and any(e is o or txt(e) == txt(o) for o in opens) for e, t in path_facts(fcfg, n))
+            elif any(txt(n.value) == txt(o) for o in opens):
+                raised = True
+    ok = bool(opens) and bool(closes) and bool(takes) and raised
     _ = text
     ctx.ob("R02.6", RP, fci, "find_condition_identifiers", "scan", ok,
            "identifiers are collected from the CONDITIONS marker up to the next rule keyword", form="")
